@@ -121,17 +121,14 @@ fn run(args: vcore::Args) -> i32 {
     for seed in [0u64, 1, 2] {
         for m in [2usize, 16] {
             for dim in [1usize, 2, 3] {
-                cfgs.push(Cfg { seed, m, dim, nids: 4, reduced: false, mode: seqm::QMode::Plain, prefill: 0, depth: d_all });
+                // quick: depth 4 on (seed 0, dim 2), depth 3 on the other seed/dim configurations
+                let depth = if tier == Tier::Quick && !(seed == 0 && dim == 2) { 3 } else { d_all };
+                cfgs.push(Cfg { seed, m, dim, nids: 4, reduced: false, mode: seqm::QMode::Plain, prefill: 0, depth });
             }
         }
     }
     match tier {
-        Tier::Quick => {
-            // depth 5 on the reduced alphabet (zero vector, two unit vectors; duplicates by construction), 3 ids
-            for m in [2usize, 16] {
-                cfgs.push(Cfg { seed: 0, m, dim: 2, nids: 3, reduced: true, mode: seqm::QMode::Plain, prefill: 0, depth: 5 });
-            }
-        }
+        Tier::Quick => {}
         Tier::Thorough => {
             for m in [2usize, 16] {
                 cfgs.push(Cfg { seed: 0, m, dim: 2, nids: 3, reduced: false, mode: seqm::QMode::Plain, prefill: 0, depth: 6 });
@@ -141,8 +138,12 @@ fn run(args: vcore::Args) -> i32 {
             }
         }
     }
-    for mode in [seqm::QMode::QNone, seqm::QMode::QScalar, seqm::QMode::QBinary, seqm::QMode::QBinaryNoRescore, seqm::QMode::QProduct] {
+    for (mode, quick_prefill) in [(seqm::QMode::QNone, 0u8), (seqm::QMode::QScalar, 10), (seqm::QMode::QBinary, 0), (seqm::QMode::QBinaryNoRescore, 10), (seqm::QMode::QProduct, 10)] {
         for prefill in [0u8, 10] {
+            // quick: one start per mode (trained quantiser for the modes that train)
+            if tier == Tier::Quick && prefill != quick_prefill {
+                continue;
+            }
             cfgs.push(Cfg { seed: 0, m: 16, dim: 2, nids: 3, reduced: false, mode, prefill, depth: tier.pick(3, 4) });
         }
     }
@@ -158,7 +159,9 @@ fn run(args: vcore::Args) -> i32 {
     let mut stats_all: BTreeMap<String, u64> = BTreeMap::new();
     let mut witness_all: BTreeMap<String, (usize, String)> = BTreeMap::new();
     for c in &cfgs {
-        let model = seqm::Model::new(c.seed, c.m, c.dim, c.nids, c.reduced, c.mode, c.prefill);
+        let mut model = seqm::Model::new(c.seed, c.m, c.dim, c.nids, c.reduced, c.mode, c.prefill);
+        // a rayon hand-off per state dominates the system time: quick compares the batch entry points on every 16th state
+        model.batch_every = tier.pick(16, 1);
         let before = (rep.states, rep.transitions);
         let t0 = rep.elapsed_s();
         let st = vcore::seq_bfs(&model, c.depth, 200_000_000, &mut rep);
@@ -272,13 +275,13 @@ fn run(args: vcore::Args) -> i32 {
         #[derive(Hash)]
         struct T(Vec<Vec<u32>>);
         let mut items = vec![];
-        for (dim, max) in [(1usize, 3usize), (2, 3), (3, tier.pick(1, 2))] {
+        for (dim, max) in [(1usize, 3usize), (2, tier.pick(2, 3)), (3, tier.pick(0, 2))] {
             let a = refs::all_vectors(&kern::ALPHA, dim);
             for s in multisets(a.len(), max) {
                 items.push(T(s.iter().map(|i| bits(&a[*i])).collect()));
             }
         }
-        rep.sample(json!({"scalar_training_set": items[40].0.iter().map(|v| unbits(v)).collect::<Vec<_>>()}));
+        rep.sample(json!({"scalar_training_set": items[40.min(items.len() - 1)].0.iter().map(|v| unbits(v)).collect::<Vec<_>>()}));
         run_family("scalar_quantizer_training_sets", &items, &mut rep, &mut sink, &mut sizes, |t, s| {
             let tr: Vec<Vec<f32>> = t.0.iter().map(|v| unbits(v)).collect();
             quant::eval_scalar(&tr, &quant_probes(tr[0].len()), s)
@@ -326,19 +329,19 @@ fn run(args: vcore::Args) -> i32 {
         for s in sequences_upto(a1.len(), 1, 3) {
             sets.push((s.iter().map(|i| a1[*i].clone()).collect(), vec![1]));
         }
-        for s in sequences_upto(a2.len(), 1, 2) {
+        for s in sequences_upto(a2.len(), 1, tier.pick(1, 2)) {
             sets.push((s.iter().map(|i| a2[*i].clone()).collect(), vec![1, 2]));
         }
         // ordered triples (k-means initialisation depends on the order): dimension 2 over the 7-vector alphabet in the
-        // thorough tier, over its first 4 vectors in the quick tier
-        let tri = tier.pick(4, a2r.len());
+        // thorough tier, over its first 2 vectors in the quick tier
+        let tri = tier.pick(2, a2r.len());
         for s in sequences_upto(tri, 3, 3) {
             sets.push((s.iter().map(|i| a2r[*i].clone()).collect(), vec![1, 2]));
         }
         for (tr, ms) in &sets {
             for m in ms {
                 for (k, its) in [(0usize, vec![1usize]), (1, vec![0, 1, 3]), (2, vec![0, 1, 3]), (3, vec![0, 1, 3]), (4, vec![1]), (256, vec![1])] {
-                    if k == 256 && tier == Tier::Quick && tr.len() != 2 {
+                    if tier == Tier::Quick && ((k == 256 && !(tr.len() == 2 && tr[0].len() == 1)) || k == 4) {
                         continue;
                     }
                     for it in its {
@@ -359,10 +362,14 @@ fn run(args: vcore::Args) -> i32 {
         struct D(Vec<Vec<u32>>, &'static str, Option<usize>, String);
         let alpha = seqm::alphabet(2, false);
         let mut items = vec![];
-        for s in sequences_upto(alpha.len(), 1, 3) {
+        let batch_all = tier == Tier::Thorough;
+        for s in sequences_upto(alpha.len(), 1, tier.pick(2, 3)) {
             let vs: Vec<Vec<u32>> = s.iter().map(|i| bits(&alpha[*i])).collect();
             for metric in ["cosine", "euclidean", "dot_product", "manhattan"] {
                 for m in [None, Some(2usize)] {
+                    if tier == Tier::Quick && m.is_some() != (s.len() == 1) {
+                        continue; // quick: explicit m on the single-node scripts, default m on the pairs
+                    }
                     let mut muts = vec!["none".to_string(), "create:1".to_string()];
                     for i in 0..s.len() {
                         muts.push(format!("delete:{i}"));
@@ -376,10 +383,13 @@ fn run(args: vcore::Args) -> i32 {
             }
         }
         let stats = std::sync::Mutex::new(BTreeMap::<String, u64>::new());
-        rep.sample(json!({"db_case": {"vectors": items[100].0.iter().map(|v| unbits(v)).collect::<Vec<_>>(), "metric": items[100].1, "m": items[100].2, "mutation": items[100].3}}));
+        {
+            let it = &items[100.min(items.len() - 1)];
+            rep.sample(json!({"db_case": {"vectors": it.0.iter().map(|v| unbits(v)).collect::<Vec<_>>(), "metric": it.1, "m": it.2, "mutation": it.3}}));
+        }
         run_family("database_scripts", &items, &mut rep, &mut sink, &mut sizes, |d, s| {
             let vs: Vec<Vec<f32>> = d.0.iter().map(|v| unbits(v)).collect();
-            let (e, n, st) = dbl::eval_db(&vs, d.1, d.2, &d.3, &alpha, s);
+            let (e, n, st) = dbl::eval_db(&vs, d.1, d.2, &d.3, &alpha, batch_all, s);
             let mut g = stats.lock().unwrap();
             for (k, v) in st {
                 *g.entry(k).or_insert(0) += v;
@@ -391,7 +401,7 @@ fn run(args: vcore::Args) -> i32 {
     // ---------------------------------------------------------------- vector storage backends
     if want("storage") {
         let dir = vcore::scratch_dir("c18");
-        let items: Vec<Vec<usize>> = sequences_upto(stor::NEV, 1, tier.pick(4, 5));
+        let items: Vec<Vec<usize>> = sequences_upto(stor::NEV, 1, tier.pick(3, 5));
         run_family("storage_sequences", &items, &mut rep, &mut sink, &mut sizes, |q, s| stor::eval_seq(q, &dir, vcore::hash_of(q) as usize, s));
         let _ = std::fs::remove_dir_all(&dir);
     }
